@@ -16,6 +16,7 @@ import time
 from fractions import Fraction
 from pathlib import Path
 
+sys.set_int_max_str_digits(0)
 VERIF = Path(__file__).resolve().parent.parent
 REPO = Path(os.environ.get('XLVERIF_REPO', '/repo'))
 LEAN = VERIF / 'lean'
